@@ -120,6 +120,9 @@ pub fn decode(par: &mut Parser) -> Result<DataType, RtcmError> {
         for _ in 0..bias_num {
             if let Some(signal_id) = to_sig(par.parse::<U8>(5)?) {
                 let bias = par.parse::<I16>(14)? as f32;
+                if value.len() >= value.capacity() {
+                    return Err(RtcmError::CapacityExceeded);
+                }
                 value.push(Msg1065CodeBias {
                     satellite_id,
                     signal_id,
